@@ -43,6 +43,8 @@ struct SrcState {
     polls: u64,
     lim: Limits,
     ch: SharedChooser,
+    /// human-readable event log (replay mode only)
+    log: Option<Vec<String>>,
 }
 
 struct Src(Rc<RefCell<SrcState>>);
@@ -79,13 +81,22 @@ impl AsyncRead for Src {
             buf[..k].copy_from_slice(&s.data[p..p + k]);
             s.pos += k;
             s.consecutive_pending = 0;
+            if let Some(l) = s.log.as_mut() {
+                l.push(format!("poll_read(buf of {}): deliver {} of {} available", buf.len(), k, avail));
+            }
             return Poll::Ready(Ok(k));
         }
         if can_pend && c == deliver_opts {
             s.consecutive_pending += 1;
             s.pendings_total += 1;
             s.last_poll_pending = true;
+            if let Some(l) = s.log.as_mut() {
+                l.push("poll_read: Pending".to_string());
+            }
             return Poll::Pending;
+        }
+        if let Some(l) = s.log.as_mut() {
+            l.push("poll_read: transient error".to_string());
         }
         s.errors += 1;
         s.consecutive_pending = 0;
@@ -122,6 +133,10 @@ fn hash64<T: std::hash::Hash>(t: &T) -> u64 {
 
 /// One execution: returns Err(description) on an oracle failure.
 pub fn run_once(sc: &Scenario, lim: Limits, ch: SharedChooser, obs_out: &mut Option<Obs>) -> Result<(), String> {
+    run_logged(sc, lim, ch, obs_out, false)
+}
+
+pub fn run_logged(sc: &Scenario, lim: Limits, ch: SharedChooser, obs_out: &mut Option<Obs>, verbose: bool) -> Result<(), String> {
     let mut data = wire(&sc.frames);
     data.truncate(sc.avail);
     let st = Rc::new(RefCell::new(SrcState {
@@ -134,6 +149,7 @@ pub fn run_once(sc: &Scenario, lim: Limits, ch: SharedChooser, obs_out: &mut Opt
         polls: 0,
         lim,
         ch: ch.clone(),
+        log: if verbose { Some(Vec::new()) } else { None },
     }));
     let mut reader = AsyncReader::new(Src(st.clone()));
     let max_len = match sc.max_len {
@@ -178,6 +194,9 @@ pub fn run_once(sc: &Scenario, lim: Limits, ch: SharedChooser, obs_out: &mut Opt
                     let c = if drops < lim.d { ch.borrow_mut().choose("after-pending: poll again / drop future", &[0, 1]) } else { 0 };
                     if c == 1 {
                         drops += 1;
+                        if let Some(l) = st.borrow_mut().log.as_mut() {
+                            l.push("caller: drop the pending read future".to_string());
+                        }
                         break None;
                     }
                 }
@@ -194,6 +213,14 @@ pub fn run_once(sc: &Scenario, lim: Limits, ch: SharedChooser, obs_out: &mut Opt
             None => continue,
             Some(r) => r,
         };
+        if let Some(l) = st.borrow_mut().log.as_mut() {
+            l.push(format!("read() returned {:?}", r));
+        }
+        if verbose {
+            for l in st.borrow_mut().log.as_mut().unwrap().drain(..) {
+                println!("    {}", l);
+            }
+        }
         results.push(r.clone());
         if r == Res::Transient {
             let injected = st.borrow().errors - errors_before;
@@ -365,7 +392,7 @@ pub fn replay_case(case: &serde_json::Value) -> Result<(), String> {
     let g = |k: &str| l[k].as_u64().unwrap() as u32;
     let lim = Limits { p: g("p"), e: g("e"), d: g("d"), b: g("b") };
     let mut o = None;
-    let (labels, res) = replay(&choices, |ch| run_once(&scen, lim, ch, &mut o));
+    let (labels, res) = replay(&choices, |ch| run_logged(&scen, lim, ch, &mut o, true));
     for l in labels {
         println!("  {}", l);
     }
